@@ -271,8 +271,22 @@ impl Chan {
                     cr.viols.push(Viol { prop: "C11".into(), clause: "channel_skipped_after_mask_removed".into(), detail: format!("op {} carries no mask (an earlier call did): {}", f.step, f.detail), step: f.step });
                 }
             }
-            if a.findings.iter().chain(b.findings.iter()).any(|f| f.prop == "C03") {
-                cr.inconclusive = Some("C03 event in this history".into());
+            // a panic / spurious Err on both sides is C03's business; in the masked run alone, while the
+            // unmasked twin completes the same history, it is a mask that changed the outcome
+            let pa = a.findings.iter().find(|f| f.prop == "C03");
+            let pb = b.findings.iter().any(|f| f.prop == "C03");
+            match (pa, pb) {
+                (Some(f), false) => {
+                    if cr.viols.is_empty() {
+                        cr.viols.push(Viol { prop: "C11".into(), clause: "masked_run_fails_unmasked_completes".into(), detail: format!("op {}: {} ({}); the same history without the mask completes", f.step, f.clause, f.detail), step: f.step });
+                    }
+                }
+                (None, false) => {}
+                _ => {
+                    if cr.viols.is_empty() {
+                        cr.inconclusive = Some("C03 event in this history".into());
+                    }
+                }
             }
             st.add("masked_cases", 1.0);
             st.add("all_false_mask_cases", (!any_active) as u8 as f64);
